@@ -150,6 +150,8 @@ func (c cfgChoice) config() config.Pipeline {
 			p.Connectors[1].Type = config.TypeSource
 			p.Connectors[1].Plugin = "src"
 		}
+	case "dlq0": // the nack window is switched off (size 0) while a threshold is still configured: valid, stored as given
+		p.DLQ = config.DLQ{Plugin: "dst", Settings: map[string]string{"d": "1"}, WindowSize: intp(0), WindowNackThreshold: intp(3)}
 	case "dlq":
 		p.DLQ = config.DLQ{Plugin: "dst", Settings: map[string]string{"d": "1"}, WindowSize: intp(4), WindowNackThreshold: intp(2)}
 	}
@@ -159,7 +161,7 @@ func (c cfgChoice) config() config.Pipeline {
 func grammar(thorough bool) []cfgChoice {
 	connProcs := [][]string{nil, {"a1"}, {"a1", "a2", "a3"}, {"a3", "a2", "a1"}}
 	pipeProcs := [][]string{nil, {"x", "y", "z"}, {"z", "x"}}
-	edits := []string{"", "name", "A.settings", "A.plugin", "proc.settings", "proc.workers", "proc.condition", "dlq", "B.type"}
+	edits := []string{"", "name", "A.settings", "A.plugin", "proc.settings", "proc.workers", "proc.condition", "dlq", "B.type", "dlq0"}
 	if thorough {
 		connProcs = append(connProcs, []string{"a2"}, []string{"a1", "a2"}, []string{"a2", "a1", "a3"})
 		pipeProcs = append(pipeProcs, []string{"x"}, []string{"x", "y"}, []string{"y", "x", "z"})
